@@ -11,6 +11,12 @@ from dadi.TwoLocus.TLSpectrum_mod import TLSpectrum
 
 tol = 1e-12
 
+def _tridiag(a, b, c, r):
+    """
+    dadi's compiled tridiagonal solver. It reads its arguments through raw pointers, so hand it contiguous float64 memory.
+    """
+    return dadi.Integration.tridiag.tridiag(*[np.ascontiguousarray(v, dtype=float) for v in (a, b, c, r)])
+
 def LD_per_bin(ns):
     """
     Calculate LD statistics per bin for a TLSpectrum.
@@ -839,7 +845,7 @@ def advance_adi1(phi,U01,P1,x):
     for jj in range(len(x)):
         for kk in range(len(x)):
             if np.sum(U01[:,jj,kk]) > 1:
-                phi[:,jj,kk] = dadi.tridiag.tridiag(P1[jj,kk,0,:],P1[jj,kk,1,:],P1[jj,kk,2,:],phi[:,jj,kk])
+                phi[:,jj,kk] = _tridiag(P1[jj,kk,0,:],P1[jj,kk,1,:],P1[jj,kk,2,:],phi[:,jj,kk])
     return phi
 
 def advance_adi2(phi,U01,P2,x):
@@ -860,7 +866,7 @@ def advance_adi2(phi,U01,P2,x):
     for ii in range(len(x)):
         for kk in range(len(x)):
             if np.sum(U01[ii,:,kk]) > 1:
-                phi[ii,:,kk] = dadi.tridiag.tridiag(P2[ii,kk,0,:],P2[ii,kk,1,:],P2[ii,kk,2,:],phi[ii,:,kk])
+                phi[ii,:,kk] = _tridiag(P2[ii,kk,0,:],P2[ii,kk,1,:],P2[ii,kk,2,:],phi[ii,:,kk])
     return phi
 
 def advance_adi3(phi,U01,P3,x):
@@ -881,7 +887,7 @@ def advance_adi3(phi,U01,P3,x):
     for ii in range(len(x)):
         for jj in range(len(x)):
             if np.sum(U01[ii,jj,:]) > 1:
-                phi[ii,jj,:] = dadi.tridiag.tridiag(P3[ii,jj,0,:],P3[ii,jj,1,:],P3[ii,jj,2,:],phi[ii,jj,:])
+                phi[ii,jj,:] = _tridiag(P3[ii,jj,0,:],P3[ii,jj,1,:],P3[ii,jj,2,:],phi[ii,jj,:])
     return phi
 
 def advance_adi(phi,U01,P1,P2,P3,x,ii):
@@ -1275,7 +1281,7 @@ def advance_surf_adi1(surf,U01surf,P1surf,x):
     """
     for jj in range(len(x)):
         if np.sum(U01surf[:,jj]) > 1:
-            surf[:,jj] = dadi.tridiag.tridiag(P1surf[jj,0,:],P1surf[jj,1,:],P1surf[jj,2,:],surf[:,jj])
+            surf[:,jj] = _tridiag(P1surf[jj,0,:],P1surf[jj,1,:],P1surf[jj,2,:],surf[:,jj])
     return surf
 
 def advance_surf_adi2(surf,U01surf,P2surf,x):
@@ -1293,7 +1299,7 @@ def advance_surf_adi2(surf,U01surf,P2surf,x):
     """
     for ii in range(len(x)):
         if np.sum(U01surf[ii,:]) > 1:
-            surf[ii,:] = dadi.tridiag.tridiag(P2surf[ii,0,:],P2surf[ii,1,:],P2surf[ii,2,:],surf[ii,:])
+            surf[ii,:] = _tridiag(P2surf[ii,0,:],P2surf[ii,1,:],P2surf[ii,2,:],surf[ii,:])
     return surf
 
 def advance_surf_cov(surf,Csurf,x):
@@ -1343,7 +1349,7 @@ def advance1D(u,P):
     a = np.concatenate((np.array([0]),np.diag(P,-1)))
     b = np.diag(P)
     c = np.concatenate((np.diag(P,1),np.array([0])))
-    u = dadi.tridiag.tridiag(a,b,c,u)
+    u = _tridiag(a,b,c,u)
     return u
 
 def move_surf_to_line(x,dx,dt,gammaA,gammaB,nu,hA=1./2,hB=1./2):
